@@ -264,29 +264,38 @@ Qed.
 
 (* the ISO rendering of an instant parses back to the instant truncated to microseconds, shifted by the seconds of
    the zone offset that "Z07:00" cannot express; the environment (formats, zone) plays no role *)
-Lemma iso_roundtrip_general_with : forall fill offset offset' e t,
+Lemma iso_roundtrip_src : forall fill offset offset' zend e t,
   in_year_range (f_year (fields_of offset t)) -> -86400 < offset (unix_of t) < 86400 ->
-  datetime_from_string_with fill offset' e (iso offset t)
-  = Some (t - t mod 1000 + (offset (unix_of t) - 60 * Z.quot (offset (unix_of t)) 60) * giga).
+  datetime_from_string_src fill offset' zend e (iso offset t)
+  = Some (t - t mod 1000 + (offset (unix_of t) - 60 * Z.quot (offset (unix_of t)) 60) * giga, false).
 Proof.
-  intros fill offset offset' e t Hy Hoff. unfold iso, datetime_from_string_with.
+  intros fill offset offset' zend e t Hy Hoff. unfold iso, datetime_from_string_src.
   destruct (fields_of_spec offset t) as (V & W & Hns). cbv zeta in V, W, Hns.
-  destruct (parse_iso_of_fields _ _ V Hy Hoff) as (P & T). rewrite T, P. f_equal.
+  destruct (parse_iso_of_fields _ _ V Hy Hoff) as (P & T). rewrite T, P. f_equal. f_equal.
   rewrite W, Hns. unfold wall, unix_of, giga. Z.to_euclidean_division_equations; lia.
 Qed.
 
-Lemma iso_roundtrip_general : forall offset offset' e t,
+Lemma iso_roundtrip_general_with : forall fill offset offset' zend e t,
   in_year_range (f_year (fields_of offset t)) -> -86400 < offset (unix_of t) < 86400 ->
-  datetime_from_string offset' e (iso offset t)
+  datetime_from_string_with fill offset' zend e (iso offset t)
   = Some (t - t mod 1000 + (offset (unix_of t) - 60 * Z.quot (offset (unix_of t)) 60) * giga).
-Proof. intros offset offset' e t. apply iso_roundtrip_general_with. Qed.
+Proof.
+  intros fill offset offset' zend e t Hy Hoff. unfold datetime_from_string_with.
+  rewrite iso_roundtrip_src by assumption. reflexivity.
+Qed.
 
-Lemma iso_roundtrip : forall offset offset' e t,
+Lemma iso_roundtrip_general : forall offset offset' zend e t,
+  in_year_range (f_year (fields_of offset t)) -> -86400 < offset (unix_of t) < 86400 ->
+  datetime_from_string offset' zend e (iso offset t)
+  = Some (t - t mod 1000 + (offset (unix_of t) - 60 * Z.quot (offset (unix_of t)) 60) * giga).
+Proof. intros offset offset' zend e t. apply iso_roundtrip_general_with. Qed.
+
+Lemma iso_roundtrip : forall offset offset' zend e t,
   in_year_range (f_year (fields_of offset t)) -> -86400 < offset (unix_of t) < 86400 ->
   offset (unix_of t) mod 60 = 0 ->
-  datetime_from_string offset' e (iso offset t) = Some (t - t mod 1000).
+  datetime_from_string offset' zend e (iso offset t) = Some (t - t mod 1000).
 Proof.
-  intros offset offset' e t Hy Hoff Hm. rewrite iso_roundtrip_general by assumption. f_equal.
+  intros offset offset' zend e t Hy Hoff Hm. rewrite iso_roundtrip_general by assumption. f_equal.
   replace (60 * Z.quot (offset (unix_of t)) 60) with (offset (unix_of t)); [lia|].
   Z.to_euclidean_division_equations; lia.
 Qed.
@@ -559,15 +568,15 @@ Proof.
 Qed.
 
 (* Format(env) of valid fields parses to the instant time.Date makes of the fields at the rendered precision *)
-Lemma format_fields_roundtrip : forall fill offset e f, std_markers e -> valid_fields f -> in_year_range (f_year f) ->
-  datetime_from_string_with fill offset e (format_of_fields e f)
-  = Some (from_wall offset (wall_of (f_year f) (f_month f) (f_day f) (f_hour f) (f_min f) (secs_of (e_tf e) (f_sec f)))
-          * giga).
+Lemma format_fields_roundtrip : forall fill offset zend e f, std_markers e -> valid_fields f -> in_year_range (f_year f) ->
+  datetime_from_string_src fill offset zend e (format_of_fields e f)
+  = Some (combine offset zend (wall_of (f_year f) (f_month f) (f_day f) (f_hour f) (f_min f) (secs_of (e_tf e) (f_sec f))) 0,
+          true).
 Proof.
-  intros fill offset e [y m d h mi s ns] Hm (V & Vc & Hns) Hy.
+  intros fill offset zend e [y m d h mi s ns] Hm (V & Vc & Hns) Hy.
   cbn [f_year f_month f_day f_hour f_min f_sec f_ns] in *.
   destruct (valid_date_ranges _ _ _ V) as (Rm & Rd & _).
-  unfold datetime_from_string_with, format_of_fields. cbn [f_year f_month f_day f_hour f_min f_sec f_ns].
+  unfold datetime_from_string_src, format_of_fields. cbn [f_year f_month f_day f_hour f_min f_sec f_ns].
   destruct (date_text_ends (e_df e) y m d Hy Rm Rd) as (c & r & c' & E & Dc & Dc').
   destruct (time_text_last e h mi s Hm Vc) as (tr & tc & Et & Htc).
   assert (Htrim : trim_dt (date_text (e_df e) y m d ++ [32%N] ++ time_text e h mi s)
@@ -581,27 +590,35 @@ Proof.
   rewrite parse_date_text; try assumption; try reflexivity.
   - change (32%N :: time_text e h mi s) with ([32%N] ++ time_text e h mi s).
     rewrite (parse_time_text e h mi s [32%N] Hm Vc) by (right; reflexivity).
-    cbn [t_hour t_min t_sec t_ns]. f_equal. lia.
+    cbn [t_hour t_min t_sec t_ns]. reflexivity.
   - intros c0 r0 H0. inversion H0. reflexivity.
 Qed.
 
 (* the statement on instants: format in the environment's zone, parse in the same environment *)
-Lemma format_datetime_roundtrip_with : forall fill offset e t, std_markers e -> in_year_range (f_year (fields_of offset t)) ->
+Lemma format_datetime_src : forall fill offset zend e t, std_markers e -> in_year_range (f_year (fields_of offset t)) ->
   let f := fields_of offset t in
-  datetime_from_string_with fill offset e (format_datetime offset e t)
-  = Some (from_wall offset (wall_of (f_year f) (f_month f) (f_day f) (f_hour f) (f_min f) (secs_of (e_tf e) (f_sec f)))
-          * giga).
+  datetime_from_string_src fill offset zend e (format_datetime offset e t)
+  = Some (combine offset zend (wall_of (f_year f) (f_month f) (f_day f) (f_hour f) (f_min f) (secs_of (e_tf e) (f_sec f))) 0,
+          true).
 Proof.
-  intros fill offset e t Hm Hy f. unfold format_datetime. apply format_fields_roundtrip; try assumption.
+  intros fill offset zend e t Hm Hy f. unfold format_datetime. apply format_fields_roundtrip; try assumption.
   apply fields_of_spec.
 Qed.
 
-Lemma format_datetime_roundtrip : forall offset e t, std_markers e -> in_year_range (f_year (fields_of offset t)) ->
+Lemma format_datetime_roundtrip_with : forall fill offset zend e t, std_markers e -> in_year_range (f_year (fields_of offset t)) ->
   let f := fields_of offset t in
-  datetime_from_string offset e (format_datetime offset e t)
-  = Some (from_wall offset (wall_of (f_year f) (f_month f) (f_day f) (f_hour f) (f_min f) (secs_of (e_tf e) (f_sec f)))
-          * giga).
-Proof. intros offset e t. apply format_datetime_roundtrip_with. Qed.
+  datetime_from_string_with fill offset zend e (format_datetime offset e t)
+  = Some (combine offset zend (wall_of (f_year f) (f_month f) (f_day f) (f_hour f) (f_min f) (secs_of (e_tf e) (f_sec f))) 0).
+Proof.
+  intros fill offset zend e t Hm Hy f. unfold datetime_from_string_with.
+  rewrite format_datetime_src by assumption. reflexivity.
+Qed.
+
+Lemma format_datetime_roundtrip : forall offset zend e t, std_markers e -> in_year_range (f_year (fields_of offset t)) ->
+  let f := fields_of offset t in
+  datetime_from_string offset zend e (format_datetime offset e t)
+  = Some (combine offset zend (wall_of (f_year f) (f_month f) (f_day f) (f_hour f) (f_min f) (secs_of (e_tf e) (f_sec f))) 0).
+Proof. intros offset zend e t. apply format_datetime_roundtrip_with. Qed.
 
 (* ------------------------------------------------------------------------------------------------ *)
 (* Part 7: the wall-clock fields of the re-read instant *)
@@ -628,20 +645,30 @@ Proof.
   rewrite H2. lia.
 Qed.
 
+(* when time.Date resolves the local time, the correction for skipped local times does not apply *)
+Lemma combine_resolves : forall offset zend w ns, resolves offset w ->
+  combine offset zend w ns = from_wall offset w * giga + ns.
+Proof.
+  intros offset zend w ns H. unfold combine. unfold resolves, wall, unix_of in H.
+  replace (from_wall offset w * giga / giga) with (from_wall offset w) in H
+    by (unfold giga; Z.to_euclidean_division_equations; lia).
+  rewrite H, Z.ltb_irrefl. reflexivity.
+Qed.
+
 Lemma resolves_fixed_zone : forall c w, resolves (fun _ => c) w.
 Proof. intros c w. apply (resolves_stable _ w c); reflexivity. Qed.
 
 Definition trunc_fields (tf : tfmt) (f : fields) : fields :=
   Fields (f_year f) (f_month f) (f_day f) (f_hour f) (f_min f) (secs_of tf (f_sec f)) 0.
 
-Lemma format_datetime_fields : forall offset e t, std_markers e -> in_year_range (f_year (fields_of offset t)) ->
+Lemma format_datetime_fields : forall offset zend e t, std_markers e -> in_year_range (f_year (fields_of offset t)) ->
   let f := fields_of offset t in
   resolves offset (wall_of (f_year f) (f_month f) (f_day f) (f_hour f) (f_min f) (secs_of (e_tf e) (f_sec f))) ->
-  exists t', datetime_from_string offset e (format_datetime offset e t) = Some t'
+  exists t', datetime_from_string offset zend e (format_datetime offset e t) = Some t'
              /\ fields_of offset t' = trunc_fields (e_tf e) f.
 Proof.
-  intros offset e t Hm Hy f Hres. eexists. split; [apply format_datetime_roundtrip; assumption|].
-  fold f. destruct (fields_of_spec offset t) as ((V & (Hh & Hmi & Hs) & Hns) & _ & _). fold f in V, Hh, Hmi, Hs.
+  intros offset zend e t Hm Hy f Hres. eexists. split; [apply format_datetime_roundtrip; assumption|].
+  fold f. rewrite (combine_resolves _ _ _ _ Hres), Z.add_0_r. destruct (fields_of_spec offset t) as ((V & (Hh & Hmi & Hs) & Hns) & _ & _). fold f in V, Hh, Hmi, Hs.
   unfold fields_of. unfold resolves in Hres. rewrite Hres.
   replace (from_wall offset (wall_of (f_year f) (f_month f) (f_day f) (f_hour f) (f_min f) (secs_of (e_tf e) (f_sec f)))
            * giga mod giga) with 0 by (unfold giga; Z.to_euclidean_division_equations; lia).
@@ -657,30 +684,48 @@ Definition lmt_instant : Z := (days_from_civil 1800 5 6 * 86400 + 36897) * giga 
 
 Lemma iso_seconds_witness :
   in_year_range (f_year (fields_of lmt_zone lmt_instant)) /\ -86400 < lmt_zone (unix_of lmt_instant) < 86400
-  /\ datetime_from_string lmt_zone (Env DMY HM [97; 109]%N [112; 109]%N 2026) (iso lmt_zone lmt_instant)
+  /\ datetime_from_string lmt_zone (fun _ => None) (Env DMY HM [97; 109]%N [112; 109]%N 2026) (iso lmt_zone lmt_instant)
      = Some (lmt_instant - 28 * giga).
 Proof. vm_compute. repeat split; discriminate. Qed.
 
-(* Africa/Monrovia: -0:44:30 until 1972-01-07 00:44:30 UTC (unix 63593070), then UTC *)
+(* Asia/Tehran: +3:25:44 until 1935-06-13 00:00:00 local, then +3:30 (local clocks jump to 00:04:16).  East of UTC
+   time.Date answers a skipped local time with a LATER one, which DateTimeFromString keeps. *)
+Definition tehran_T : Z := days_from_civil 1935 6 13 * 86400 - 12344.
+Definition tehran (x : Z) : Z := if x <? tehran_T then 12344 else 12600.
+Definition tehran_zend (x : Z) : option Z := if x <? tehran_T then Some tehran_T else None.
+Definition tehran_env : env := Env DMY HM [97; 109]%N [112; 109]%N 2026.
+Definition tehran_instant : Z := (days_from_civil 1935 6 13 * 86400 + 270 - 12600) * giga.
+
+Lemma gap_witness :
+  std_markers tehran_env /\ in_year_range (f_year (fields_of tehran tehran_instant))
+  /\ fields_of tehran tehran_instant = Fields 1935 6 13 0 4 30 0
+  /\ exists t', datetime_from_string tehran tehran_zend tehran_env (format_datetime tehran tehran_env tehran_instant) = Some t'
+                /\ fields_of tehran t' = Fields 1935 6 13 0 8 16 0.
+Proof.
+  split; [split; reflexivity|]. split; [vm_compute; split; discriminate|]. split; [vm_compute; reflexivity|].
+  exists ((days_from_civil 1935 6 13 * 86400 + 240 - 12344) * giga). split; vm_compute; reflexivity.
+Qed.
+
+(* Africa/Monrovia: -0:44:30 until 1972-01-07 00:44:30 UTC (unix 63593070), then UTC.  West of UTC time.Date answers
+   a skipped local time with an EARLIER one (here 23:59:30 of the previous day); DateTimeFromString then takes the
+   first instant after the gap, 00:44:30, which still lies in the rendered minute 00:44 *)
 Definition monrovia (x : Z) : Z := if x <? 63593070 then -2670 else 0.
+Definition monrovia_zend (x : Z) : option Z := if x <? 63593070 then Some 63593070 else None.
 Definition monrovia_env : env := Env MDY HMAP [97; 109]%N [112; 109]%N 2026.
 Definition monrovia_instant : Z := 63593075 * giga.
 
-Lemma gap_witness :
-  std_markers monrovia_env /\ in_year_range (f_year (fields_of monrovia monrovia_instant))
-  /\ fields_of monrovia monrovia_instant = Fields 1972 1 7 0 44 35 0
-  /\ exists t', datetime_from_string monrovia monrovia_env (format_datetime monrovia monrovia_env monrovia_instant) = Some t'
-                /\ fields_of monrovia t' = Fields 1972 1 6 23 59 30 0.
-Proof.
-  split; [split; reflexivity|]. split; [vm_compute; split; discriminate|]. split; [vm_compute; reflexivity|].
-  exists (63593040 * giga). split; vm_compute; reflexivity.
-Qed.
+Example west_gap_example :
+  fields_of monrovia monrovia_instant = Fields 1972 1 7 0 44 35 0
+  /\ datetime_from_string monrovia monrovia_zend monrovia_env (format_datetime monrovia monrovia_env monrovia_instant)
+     = Some (63593070 * giga)
+  /\ fields_of monrovia (63593070 * giga) = Fields 1972 1 7 0 44 30 0.
+Proof. repeat split; vm_compute; reflexivity. Qed.
 
 (* a locale whose pm marker is not "pm" (Arabic) *)
 Definition ara_env : env := Env DMY HMAP [1589]%N [1605]%N 2026.
 Lemma localized_witness :
   fields_of (fun _ => 0) (1588784889 * giga) = Fields 2020 5 6 17 8 9 0
-  /\ exists t', datetime_from_string (fun _ => 0) ara_env (format_datetime (fun _ => 0) ara_env (1588784889 * giga)) = Some t'
+  /\ exists t', datetime_from_string (fun _ => 0) (fun _ => None) ara_env (format_datetime (fun _ => 0) ara_env (1588784889 * giga)) = Some t'
                 /\ fields_of (fun _ => 0) t' = Fields 2020 5 6 5 8 0 0.
 Proof. split; [vm_compute; reflexivity|]. exists (1588741680 * giga). split; vm_compute; reflexivity. Qed.
 
@@ -703,15 +748,16 @@ Proof. intros. unfold wall_of. lia. Qed.
 (* when the two zone lookups of time.Date (at the rendered wall value read as UTC, and one offset earlier) see the
    offset c that is in force at t, the re-read instant is t with the unrendered part (nanoseconds, and the seconds
    for tt:mm / h:mm aa) removed *)
-Lemma format_datetime_instant_with : forall fill offset e t c, std_markers e -> in_year_range (f_year (fields_of offset t)) ->
+Lemma format_datetime_instant_with : forall fill offset zend e t c, std_markers e -> in_year_range (f_year (fields_of offset t)) ->
   let f := fields_of offset t in
   let w := wall_of (f_year f) (f_month f) (f_day f) (f_hour f) (f_min f) (secs_of (e_tf e) (f_sec f)) in
   offset (unix_of t) = c -> offset w = c -> offset (w - c) = c ->
-  datetime_from_string_with fill offset e (format_datetime offset e t)
+  datetime_from_string_with fill offset zend e (format_datetime offset e t)
   = Some ((unix_of t - (f_sec f - secs_of (e_tf e) (f_sec f))) * giga).
 Proof.
-  intros fill offset e t c Hm Hy f w Hc H1 H2. rewrite (format_datetime_roundtrip_with fill offset e t Hm Hy).
-  fold f. fold w. f_equal. f_equal. unfold from_wall. rewrite H1, H2.
+  intros fill offset zend e t c Hm Hy f w Hc H1 H2. rewrite (format_datetime_roundtrip_with fill offset zend e t Hm Hy).
+  fold f. fold w. rewrite (combine_resolves _ _ _ _ (resolves_stable offset w c H1 H2)), Z.add_0_r.
+  f_equal. f_equal. unfold from_wall. rewrite H1, H2.
   destruct (fields_of_spec offset t) as (_ & W & _). fold f in W.
   unfold w. rewrite (wall_of_sec _ _ _ _ _ (f_sec f)), W. unfold wall. rewrite Hc. lia.
 Qed.
@@ -725,7 +771,7 @@ Lemma fold_witness :
   std_markers fold_env /\ in_year_range (f_year (fields_of fold_zone fold_instant))
   /\ (let f := fields_of fold_zone fold_instant in
       resolves fold_zone (wall_of (f_year f) (f_month f) (f_day f) (f_hour f) (f_min f) (secs_of (e_tf fold_env) (f_sec f))))
-  /\ datetime_from_string fold_zone fold_env (format_datetime fold_zone fold_env fold_instant)
+  /\ datetime_from_string fold_zone (fun _ => None) fold_env (format_datetime fold_zone fold_env fold_instant)
      = Some (fold_instant + 3600 * giga)
   /\ fields_of fold_zone (fold_instant + 3600 * giga) = fields_of fold_zone fold_instant.
 Proof.
@@ -744,12 +790,12 @@ Proof.
 Qed.
 
 (* the number stored for the text form of a number is that number *)
-Lemma field_parse_number : forall fill offset e d, (int32_min <= dexp d)%Z ->
-  exists d' dt, field_parse fill offset e (render d) = Some (Some d', dt) /\ dec_eq d' d.
+Lemma field_parse_number : forall fill offset zend e d, (int32_min <= dexp d)%Z ->
+  exists d' dt, field_parse fill offset zend e (render d) = Some (Some d', dt) /\ dec_eq d' d.
 Proof.
-  intros fill offset e d Hd. destruct (parse_number_render d Hd) as (d' & Hp & Heq).
-  exists d', (datetime_from_string_with fill offset e (render d)). split; [|exact Heq].
-  unfold field_parse. destruct (render d) eqn:E; [exfalso; exact (render_nonempty d E)|]. rewrite Hp. reflexivity.
+  intros fill offset zend e d Hd. destruct (parse_number_render d Hd) as (d' & Hp & Heq).
+  unfold field_parse. destruct (render d) eqn:E; [exfalso; exact (render_nonempty d E)|]. rewrite Hp.
+  eexists. eexists. split; [reflexivity|exact Heq].
 Qed.
 
 Lemma iso_nonempty : forall offset t, iso offset t <> [].
@@ -764,25 +810,37 @@ Proof.
   apply app_eq_nil in H. destruct H as [H _]. discriminate.
 Qed.
 
-(* the datetime stored for the ISO text of a datetime / for its environment format: as for ToXDateTime, whatever
-   the current time of day that FieldValues.Parse would fill in for a text without a time *)
-Lemma field_parse_iso : forall fill offset offset' e t,
+Lemma as_stored_0 : forall t, t mod 1000 = 0 -> as_stored 0 t = t.
+Proof. intros t H. unfold as_stored, sec_part. cbn. lia. Qed.
+
+(* the datetime stored for the ISO text of a datetime is the instant ToXDateTime reads (being marshalled and read
+   back changes nothing more: the text carries its own whole-minute offset), whatever the current time of day *)
+Lemma field_parse_iso : forall fill offset offset' zend e t,
   in_year_range (f_year (fields_of offset t)) -> -86400 < offset (unix_of t) < 86400 ->
-  exists n, field_parse fill offset' e (iso offset t)
+  exists n, field_parse fill offset' zend e (iso offset t)
             = Some (n, Some (t - t mod 1000 + (offset (unix_of t) - 60 * Z.quot (offset (unix_of t)) 60) * giga)).
 Proof.
-  intros fill offset offset' e t Hy Hoff. exists (parse_number (iso offset t)). unfold field_parse.
+  intros fill offset offset' zend e t Hy Hoff. exists (parse_number (iso offset t)). unfold field_parse.
   destruct (iso offset t) eqn:E; [exfalso; exact (iso_nonempty offset t E)|]. rewrite <- E.
-  rewrite iso_roundtrip_general_with by assumption. reflexivity.
+  rewrite iso_roundtrip_src by assumption. rewrite as_stored_0; [reflexivity|].
+  unfold giga. Z.to_euclidean_division_equations; lia.
 Qed.
 
-Lemma field_parse_format : forall fill offset e t, std_markers e -> in_year_range (f_year (fields_of offset t)) ->
+(* the datetime stored for an environment-format text is the instant ToXDateTime reads, as it is once marshalled and
+   read back in the environment's zone (as_stored: microseconds - nothing to cut here - and a whole-minute offset) *)
+Lemma field_parse_format : forall fill offset zend e t, std_markers e -> in_year_range (f_year (fields_of offset t)) ->
   let f := fields_of offset t in
-  exists n, field_parse fill offset e (format_datetime offset e t)
-            = Some (n, Some (from_wall offset (wall_of (f_year f) (f_month f) (f_day f) (f_hour f) (f_min f)
-                                                       (secs_of (e_tf e) (f_sec f))) * giga)).
+  let r := combine offset zend (wall_of (f_year f) (f_month f) (f_day f) (f_hour f) (f_min f) (secs_of (e_tf e) (f_sec f))) 0 in
+  exists n, field_parse fill offset zend e (format_datetime offset e t) = Some (n, Some (as_stored (offset (unix_of r)) r)).
 Proof.
-  intros fill offset e t Hm Hy f. exists (parse_number (format_datetime offset e t)). unfold field_parse.
+  intros fill offset zend e t Hm Hy f r. exists (parse_number (format_datetime offset e t)). unfold field_parse.
   destruct (format_datetime offset e t) eqn:E; [exfalso; exact (format_nonempty offset e t E)|]. rewrite <- E.
-  rewrite format_datetime_roundtrip_with by assumption. reflexivity.
+  rewrite format_datetime_src by assumption. reflexivity.
+Qed.
+
+(* in a zone whose offset there is in whole minutes the stored instant is exactly the one read *)
+Lemma as_stored_whole_minutes : forall off r, off mod 60 = 0 -> r mod 1000 = 0 -> as_stored off r = r.
+Proof.
+  intros off r H1 H2. unfold as_stored, sec_part.
+  replace (60 * Z.quot off 60) with off by (Z.to_euclidean_division_equations; lia). lia.
 Qed.
